@@ -252,7 +252,7 @@ func c06RunCase(tb vt.TB, backend string, ops []*world.Op) {
 }
 
 func TestC06(t *testing.T) {
-	evid.Extra("rule", "C06: a world whose history is empty or populated by 0-3 real operations (some failed, some crashed mid-way so the last revision is pending, some uninstalled with kept history), then one checked operation in {install, upgrade, rollback, uninstall, template} with every dry-run spelling the action accepts (DryRun bool and DryRunOption client|server|true, and their combinations) crossed with random other flags (atomic, replace, create-namespace, take-ownership, force, cleanup-on-fail, reset/reuse values, max-history, keep-history, post-renderer, skip/include CRDs, hide-secret, labels, description, no-hooks) over charts with hooks, a crds/ directory, NOTES and keep-policy resources. Oracle: the operation's request log holds no POST/PUT/PATCH/DELETE, the storage wrapper saw no Create/Update/Delete, cluster and store snapshots are identical before and after; client-only rendering sends no request at all (not even the reachability probe). Non-trivial = the metamorphic twin (same operation, dry-run flags cleared, on a clone of the world) performed at least one cluster or storage write; distinct by (backend, prefix history, checked operation with flags).")
+	evid.Extra("rule", "C06: a world whose history is empty or populated by 0-3 real operations (some failed, some crashed mid-way so the last revision is pending, some uninstalled with kept history), then one checked operation in {install, upgrade, rollback, uninstall, template} (one install/upgrade in six with a context that is already cancelled) with every dry-run spelling the action accepts (DryRun bool and DryRunOption client|server|true, and their combinations) crossed with random other flags (atomic, replace, create-namespace, take-ownership, force, cleanup-on-fail, reset/reuse values, max-history, keep-history, post-renderer, skip/include CRDs, hide-secret, labels, description, no-hooks) over charts with hooks, a crds/ directory, NOTES and keep-policy resources. Oracle: the operation's request log holds no POST/PUT/PATCH/DELETE, the storage wrapper saw no Create/Update/Delete, cluster and store snapshots are identical before and after; client-only rendering sends no request at all (not even the reachability probe). Non-trivial = the metamorphic twin (same operation, dry-run flags cleared, on a clone of the world) performed at least one cluster or storage write; distinct by (backend, prefix history, checked operation with flags).")
 	evid.Extra("assumptions", c01Assumptions[:2])
 	rapid.Check(t, c06Prop)
 }
